@@ -358,6 +358,61 @@ theorem C02.dist_self_and_nonneg (close1 : ℝ → Bool) (s : Space ℝ) (hs : S
   · rw [C02.dist_eq_norm_sub close1 s x y hx hy]
     exact norm_nonneg_tree close1 s hs he _ (shaped_sub s x y hx hy)
 
+/-- Explicit-grid discretized spaces (`DiscretizedSpace` over a uniform grid inside an
+arbitrary enclosing box: arbitrary boundary fractions `fl, fr` per axis side, every axis with
+`n ≥ 2` nodes, any dimension), constant weighting `c`, any finite exponent:
+`⟨1, 1⟩ = c · Π_axes (n - 2 + fl + fr)`, i.e. cell volume times the number of cells counted
+with their boundary fractions — whether or not the code takes the boundary-scaling branch
+(`np.allclose(fracs, 1)` skips it exactly when every factor is 1). -/
+theorem C02.discr_explicit_one_inner (close1 : ℝ → Bool) (hc : Ideal close1)
+    (axes : List (Axis ℝ)) (hn : ∀ a ∈ axes, 2 ≤ a.n) (c : ℝ) (p : Expo ℝ)
+    (hp : p.isInf = false) :
+    Space.inner (ops 𝕜).toIOps close1 (.discr true axes (.const c) p)
+        (.vec fun _ => 1) (.vec fun _ => 1) =
+      ((c * (axes.map axisTotal).prod : ℝ) : 𝕜) := by
+  have hdW : ∀ i, dW close1 true axes (.const c) p i = c * bfac close1 (fun f => f) axes i := by
+    intro i
+    unfold dW
+    split_ifs with h
+    · simp [twFn]
+    · have : allClose1 close1 axes = true := by
+        simpa [scalesBoundary, uniformlyWeighted, hp] using h
+      simp [twFn, bfac_of_allClose close1 _ _ this]
+  simp only [Space.inner, dInner_eq_wsum, hdW]
+  rw [← bfac_total close1 hc axes hn, Finset.mul_sum]
+  simp
+
+/-- The boundary test AS EXECUTED (any `close1`, in particular the driver's / the code's
+`np.isclose(frac, 1.0)` with its tolerance), explicit-grid or `uniform_discr` axes with
+`n ≥ 2` nodes, constant weighting `c`, finite exponent, any dimension:
+`⟨1, 1⟩ = c · Π_axes (n - 2 + fl' + fr')` where `fl', fr'` are the fractions the code applies
+(1 for a side that passes the closeness test), and each axis total differs from the exact
+`n - 2 + fl + fr` by at most `2ε` when the test only fires within `ε` of 1
+(`ε = 1e-5 + 1e-8` for `np.isclose`).  No idealisation of the closeness test is assumed. -/
+theorem C02.discr_one_inner_with_tolerance (close1 : ℝ → Bool) (axes : List (Axis ℝ))
+    (hn : ∀ a ∈ axes, 2 ≤ a.n) (c : ℝ) (p : Expo ℝ) (hp : p.isInf = false) :
+    Space.inner (ops 𝕜).toIOps close1 (.discr true axes (.const c) p)
+        (.vec fun _ => 1) (.vec fun _ => 1) =
+      ((c * (axes.map (axisTotalTol close1)).prod : ℝ) : 𝕜) ∧
+    ∀ ε : ℝ, 0 ≤ ε → Tol close1 ε → ∀ a ∈ axes, |axisTotalTol close1 a - axisTotal a| ≤ 2 * ε := by
+  refine ⟨?_, fun ε hε ht a _ => axisTotalTol_close close1 ε hε ht a⟩
+  have hdW : ∀ i, dW close1 true axes (.const c) p i = c * bfac close1 (fun f => f) axes i := by
+    intro i
+    unfold dW
+    split_ifs with h
+    · simp [twFn]
+    · have : allClose1 close1 axes = true := by
+        simpa [scalesBoundary, uniformlyWeighted, hp] using h
+      simp [twFn, bfac_of_allClose close1 _ _ this]
+  have htot : ∑ i ∈ range (axesSize axes), bfac close1 (fun f => f) axes i =
+      (axes.map (axisTotalTol close1)).prod := by
+    rw [bfac_sum]
+    congr 1
+    exact List.map_congr_left (fun a ha => sideFac_sum_tol close1 a (hn a ha))
+  simp only [Space.inner, dInner_eq_wsum, hdW]
+  rw [← htot, Finset.mul_sum]
+  simp
+
 /-- Every norm branch of the model (`sqrt(c)·nrm2`, `c^{1/p}·‖·‖ₚ`, `c·max`, in-place
 `|x|^p·w` sums, boundary scaling by `frac^{1/p}`, norms of component norms) is ONE weighted
 p-norm: of the moduli of the entries with the quadrature weights `twFn w` / `dW` (tensor /
@@ -420,6 +475,20 @@ example : cellProd [⟨0, 4, 5, true, true⟩] 0 = 1 / 2 ∧ cellProd [⟨0, 4, 
     cellProd [⟨0, 4, 5, true, true⟩] 4 = 1 / 2 := by
   refine ⟨?_, ?_, ?_⟩ <;>
     norm_num [cellProd, cellSize, node0, specSize, mkAxis, gridEnds]
+
+open Classical in
+/-- hypotheses of `discr_one_inner_with_tolerance` / `discr_explicit_one_inner`: a closeness test
+with a real tolerance (`|r - 1| ≤ 1e-5`) is `Tol` but NOT `Ideal`, and an explicit-grid axis
+with 3 nodes and a left fraction `1 + 5e-6` inside the tolerance -/
+example : Tol (fun r => decide (|r - 1| ≤ 1 / 100000)) (1 / 100000) ∧
+    ¬ Ideal (fun r => decide (|r - 1| ≤ 1 / 100000)) ∧
+    (∀ a ∈ [(⟨3, 1 + 1 / 200000, 1 / 2⟩ : Axis ℝ)], 2 ≤ a.n) ∧
+    axisTotalTol (fun r => decide (|r - 1| ≤ 1 / 100000)) ⟨3, 1 + 1 / 200000, 1 / 2⟩ = 5 / 2 := by
+  refine ⟨fun r h => by simpa using h, fun h => ?_, fun a ha => ?_, ?_⟩
+  · have := h (1 + 1 / 200000) (by norm_num [abs_le])
+    norm_num at this
+  · simp only [List.mem_singleton] at ha; subst ha; norm_num
+  · norm_num [axisTotalTol, abs_le]
 
 /-- hypotheses of the tensor-space statements: weights `(1, 2, 3)` -/
 example : twPos (.arr fun i => (i : ℝ) + 1) 3 := fun i _ => by simp only [twFn]; positivity
